@@ -96,6 +96,15 @@ func init() {
 			builtinModels[fmt.Sprintf("(*sync/atomic.%s).%s", at, m)] = &model{fn: freshResult("atomic operations return an arbitrary value (no cross-goroutine reasoning)")}
 		}
 		builtinModels[fmt.Sprintf("(*sync/atomic.%s).Store", at)] = &model{fn: noop}
+		// Add: also counted in the ghost effect counter (`effects()` in specs), so that contracts can say how many
+		// times a shared round-robin cursor is advanced
+		builtinModels[fmt.Sprintf("(*sync/atomic.%s).Add", at)] = &model{fn: func(f *Frame, cur *blockCur, in ssa.Instruction, cc *ssa.CallCommon, args []Val, rt types.Type, hint string) Val {
+			f.c.assume("atomic operations return an arbitrary value (no cross-goroutine reasoning)")
+			f.recordEffect(cur, "atomic-add", args)
+			r := f.freshVal(rt, hint)
+			cur.assume(f.typeInv(r))
+			return r
+		}, mods: func(f *Frame, cc *ssa.CallCommon) []string { return []string{"G_effects"} }}
 	}
 	for _, fnm := range []string{"LoadUint32", "LoadInt32", "LoadUint64", "LoadInt64", "LoadPointer", "LoadUintptr", "AddUint32", "AddInt32", "AddUint64", "AddInt64",
 		"CompareAndSwapInt32", "CompareAndSwapUint32", "CompareAndSwapInt64", "CompareAndSwapUint64", "CompareAndSwapPointer", "SwapInt32", "SwapUint32", "SwapPointer"} {
